@@ -311,9 +311,9 @@ C19_V(S, S2, c, e) ==
        ELSE IF S.db[u].ex THEN V("C19.neverOverwrites", S2.db = S.db /\ uidSame)
        ELSE V("C19.createsExactlyOne", S2.db[u].ex /\ S2.db[u].pw = e.pw /\ S2.db[u].arb = {}
                                        /\ \A v \in Pids \ {u} : S2.db[v] = S.db[v])
-            \cup V("C19.autoLoginIffNoConfirm",
-                   IF Has(c, "confirm") THEN uidSame /\ ~S2.db[u].conf /\ S2.db[u].cTok >= 1
-                   ELSE S2.sess[b].uid = u)
+            \cup V("C19.noAutoLoginUnderConfirm", Has(c, "confirm") => uidSame)
+            \cup V("C19.autoLoginWithoutConfirm", ~Has(c, "confirm") => S2.sess[b].uid = u)
+            \cup V("C19.confirmationStarted", Has(c, "confirm") => ~S2.db[u].conf /\ S2.db[u].cTok >= 1)
 
 -----------------------------------------------------------------------------
 (* C16 - responses leak neither password correctness when locked nor account     *)
@@ -445,13 +445,19 @@ FaultViolations(S, S2, c, e, r, r0) ==
          IsReq(e) /\ Changed(S, S2, e.b, "uid") /\ S2.sess[e.b].uid # NONE /\ OneTimeCred(S, c, e) # <<>>
             => OneTimeCred(S, c, e) \notin Live(S2))
   \cup V("C18.onlyInvalidates", \A x \in S.spent : x \notin Live(S2))
+  \* a credential the backend already consumed (the consuming call succeeded before the failing one)
+  \* stays consumed: the failed request must not put it back
+  \cup V("C18.consumedStaysConsumed",
+         RmAuth(S, c, e) /\ (\E i \in 1..(e.fault - 1) : i <= Len(r.calls) /\ r.calls[i] = "UseRememberToken")
+            => S.cookie[e.b] \notin RmIds(S2))
   \cup V("C18.nothingUnissuedBecomesLive",
          \* (id -1: a stored secret nobody was ever shown, e.g. saved before the page failed to render)
          \A x \in Live(S2) \ Live(S) : x[1] \in Kinds /\ (x[1] = "rc" \/ x[2] < 0 \/ x[2] > S.iss[x[1]]))
 
 \* general clauses that must hold whether or not a backend call fails
 FaultTolerantClauses == {"C01.sessionOnlyByCredential", "C01.otherBrowserUntouched", "C02.primaryOnlyParks",
-                         "C03.noLoginWhileBlocked", "C13.changeAuthorised"}
+                         "C03.noLoginWhileBlocked", "C13.changeAuthorised", "C19.noAutoLoginUnderConfirm",
+                         "C19.neverOverwrites", "C19.invalidCreatesNothing"}
 
 -----------------------------------------------------------------------------
 
